@@ -227,7 +227,7 @@ impl Property for C03 {
     fn budget(tier: Tier) -> u64 {
         match tier {
             Tier::Quick => 6_000,
-            Tier::Thorough => 200_000,
+            Tier::Thorough => 150_000,
         }
     }
 
@@ -660,5 +660,40 @@ mod tests {
         ];
         let calls = calls_of(&net, &evs);
         assert_eq!(fate_of(&evs, &calls, 0, (0, 1), 2000, 2000, 1000).0, Fate::Free);
+    }
+
+    /// Sanity gate (DESIGN 9.5): turmoil's own `partition_peers` / `partition_peers_oneway` scenarios pass the oracle.
+    #[test]
+    fn repo_scenarios_pass_the_oracle() {
+        let cfg = SimCfg { min_latency_us: 2000, max_latency_us: 2000, tick_us: 1000, ..SimCfg::default() };
+        let conn = |at| Conn { from: 1, to: 0, at_ms: at, c2s: vec![], s2c: vec![], fin_c: None, fin_s: None, by_ip: false };
+        let udp = vec![UdpBurst { from: 0, to: 1, at_ms: 3, count: 1, by_ip: false }, UdpBurst { from: 1, to: 0, at_ms: 3, count: 1, by_ip: false }, UdpBurst { from: 0, to: 1, at_ms: 12, count: 1, by_ip: false }];
+        let net = Net { cfg: cfg.clone(), hosts: 2, udp: udp.clone(), conns: vec![conn(2), conn(12)], hacts: vec![], script: vec![(1, Act::Partition(Sel::Name(0), Sel::Name(1))), (10, Act::Repair(Sel::Name(0), Sel::Name(1)))], steps: 30, sample_links: false };
+        let rep = C03::run(&Scenario { net, guarded: true, pair: (0, 1), slots: vec![] }, true);
+        assert!(rep.violation.is_none(), "{:?}\n{}", rep.violation, rep.log.join("\n"));
+        assert!(rep.log.iter().any(|l| l.contains("ConnErr { conn: 0")));
+        assert!(rep.log.iter().any(|l| l.contains("ConnOk { conn: 1")));
+        assert_eq!(rep.log.iter().filter(|l| l.contains("Recv(Udp")).count(), 1);
+        let net = Net { cfg, hosts: 2, udp, conns: vec![], hacts: vec![], script: vec![(1, Act::PartitionOneway(Sel::Name(0), Sel::Name(1)))], steps: 30, sample_links: false };
+        let rep = C03::run(&Scenario { net, guarded: true, pair: (0, 1), slots: vec![] }, true);
+        assert!(rep.violation.is_none(), "{:?}", rep.violation);
+        assert_eq!(rep.log.iter().filter(|l| l.contains("Recv(Udp { from: 1")).count(), 1);
+        assert_eq!(rep.log.iter().filter(|l| l.contains("Recv(Udp { from: 0")).count(), 0);
+    }
+
+    #[test]
+    fn known_matcher_is_narrow() {
+        let js = std::fs::read_to_string("/verif/proposed/C03-oneway-partition-random-failures.replay.json").unwrap();
+        let v: serde_json::Value = serde_json::from_str(&js).unwrap();
+        let sc: Scenario = serde_json::from_value(v["scenario"].clone()).unwrap();
+        let viol = Violation::new("DeliveredWhilePartitioned", "");
+        assert!(C03::known_match(KF_ONEWAY_RANDOM, &sc, &viol));
+        assert!(!C03::known_match(KF_ONEWAY_RANDOM, &sc, &Violation::new("InFlightSurvived", "")));
+        let mut no_fail = sc.clone();
+        no_fail.net.cfg.fail_rate_pm = 0;
+        assert!(!C03::known_match(KF_ONEWAY_RANDOM, &no_fail, &viol));
+        let mut two_way = sc.clone();
+        two_way.net.script = vec![(4, Act::Partition(Sel::Name(0), Sel::Name(1)))];
+        assert!(!C03::known_match(KF_ONEWAY_RANDOM, &two_way, &viol));
     }
 }
